@@ -36,7 +36,78 @@ def decode_slice_item(x):
     if kind == "L":
         import layouts
         return layouts.build(layouts.from_json(x[1]))
+    if kind == "opt":
+        # option-type integer index array, as a layout (IndexedOptionArray64 over int64)
+        vals = [v for v in x[1] if v is not None]
+        index, pos = [], 0
+        for v in x[1]:
+            if v is None:
+                index.append(-1)
+            else:
+                index.append(pos)
+                pos += 1
+        return ext.IndexedOptionArray64(ext.Index64(np.array(index, dtype=np.int64)),
+                                        ext.NumpyArray(np.array(vals, dtype=np.int64)))
+    if kind == "jag":
+        return _jagged_layout(x[1])
     raise ValueError(x)
+
+
+def _jagged_layout(v):
+    """nested lists of ints / bools / None -> ListOffsetArray64 (... of IndexedOptionArray64) of NumpyArray"""
+    def leafkind(v):
+        for e in v:
+            if isinstance(e, list):
+                k = leafkind(e)
+                if k:
+                    return k
+            elif isinstance(e, bool):
+                return "bool"
+            elif isinstance(e, int):
+                return "int"
+        return None
+    kind = leafkind(v) or "int"
+
+    def build(items):
+        # items: list of elements at this level: all lists (or None) -> list node; else leaves
+        if any(isinstance(e, list) for e in items) or (len(items) and all(e is None for e in items) and False):
+            hasnone = any(e is None for e in items)
+            present = [e for e in items if e is not None]
+            offsets = [0]
+            flat = []
+            for e in present:
+                flat.extend(e)
+                offsets.append(len(flat))
+            node = ext.ListOffsetArray64(ext.Index64(np.array(offsets, dtype=np.int64)), build(flat))
+            if hasnone:
+                index, pos = [], 0
+                for e in items:
+                    if e is None:
+                        index.append(-1)
+                    else:
+                        index.append(pos)
+                        pos += 1
+                node = ext.IndexedOptionArray64(ext.Index64(np.array(index, dtype=np.int64)), node)
+            return node
+        hasnone = any(e is None for e in items)
+        present = [e for e in items if e is not None]
+        leaf = ext.NumpyArray(np.array(present, dtype=np.bool_ if kind == "bool" else np.int64))
+        if hasnone:
+            index, pos = [], 0
+            for e in items:
+                if e is None:
+                    index.append(-1)
+                else:
+                    index.append(pos)
+                    pos += 1
+            leaf = ext.IndexedOptionArray64(ext.Index64(np.array(index, dtype=np.int64)), leaf)
+        return leaf
+    offsets = [0]
+    flat = []
+    for e in v:
+        flat.extend(e)
+        offsets.append(len(flat))
+    return ext.ListOffsetArray64(ext.Index64(np.array(offsets, dtype=np.int64)), build(flat))
 
 
 def decode_slice(sl):
